@@ -19,15 +19,21 @@ Definition tbl_in_dir (dirs : list (nat * list nat)) (d : nat) (p : path) : bool
 (* ---------- candidates ---------- *)
 Definition with_flag (i : nat) (q : oquirks) : oquirks :=
   match i with
-  | 0 => Build_oquirks false (q_lintfile_leaves_evidence q) (q_consts_in_processing_order q) (q_api_file_no_finalize q)
-  | 1 => Build_oquirks (q_dry_keeps_storage q) false (q_consts_in_processing_order q) (q_api_file_no_finalize q)
-  | 2 => Build_oquirks (q_dry_keeps_storage q) (q_lintfile_leaves_evidence q) false (q_api_file_no_finalize q)
-  | _ => Build_oquirks (q_dry_keeps_storage q) (q_lintfile_leaves_evidence q) (q_consts_in_processing_order q) false
+  | 0 => Build_oquirks false (q_lintfile_leaves_evidence q) (q_consts_in_processing_order q) (q_ignore_parser_reused q) (q_api_file_no_finalize q)
+  | 1 => Build_oquirks (q_dry_keeps_storage q) false (q_consts_in_processing_order q) (q_ignore_parser_reused q) (q_api_file_no_finalize q)
+  | 2 => Build_oquirks (q_dry_keeps_storage q) (q_lintfile_leaves_evidence q) false (q_ignore_parser_reused q) (q_api_file_no_finalize q)
+  | 3 => Build_oquirks (q_dry_keeps_storage q) (q_lintfile_leaves_evidence q) (q_consts_in_processing_order q) false (q_api_file_no_finalize q)
+  | _ => Build_oquirks (q_dry_keeps_storage q) (q_lintfile_leaves_evidence q) (q_consts_in_processing_order q) (q_ignore_parser_reused q) false
   end.
 (* C08 does not speak about the API's choice of entry point: its ideal keeps that flag as claimed *)
-Definition hist_off (q : oquirks) : oquirks := Build_oquirks false false false (q_api_file_no_finalize q).
-Definition candidates08 (q : oquirks) : list oquirks := [q; with_flag 0 q; with_flag 1 q; with_flag 2 q; hist_off q].
-Definition candidates10 (q : oquirks) : list oquirks := [q; with_flag 0 q; with_flag 1 q; with_flag 2 q; with_flag 3 q; ideal].
+Definition hist_off (q : oquirks) : oquirks := Build_oquirks false false false false (q_api_file_no_finalize q).
+Definition candidates08 (q : oquirks) : list oquirks := [q; with_flag 0 q; with_flag 1 q; with_flag 2 q; with_flag 3 q; hist_off q].
+Definition candidates10 (q : oquirks) : list oquirks := [q; with_flag 0 q; with_flag 1 q; with_flag 2 q; with_flag 3 q; with_flag 4 q; ideal].
+
+(* which paths the patterns of each version of the ignore file match: key 0 = no ignore file, S c = version c *)
+Definition pats_key (pp : option content) : nat := match pp with None => 0 | Some c => S c end.
+Definition tbl_ignored (ign : list (nat * list nat)) (pp : option content) (p : path) : bool :=
+  match passoc (pats_key pp) ign with Some l => nat_mem p l | None => false end.
 
 (* ---------- (1) symbolic instance ---------- *)
 (* TRep k n l: report of kind k over the evidence l; for the block report (k = 0) the last n entries of l are the
@@ -51,13 +57,13 @@ Definition enc_tok (t : tok) : list (list nat) :=
   match t with TRep k n l => [k :: n :: flat_fv l] | _ => [] end.
 
 Section Sym.
-  Variables (hard ign : list nat) (dirs : list (nat * list nat)).
+  Variables (hard : list nat) (ign : list (nat * list nat)) (ip : path) (dirs : list (nat * list nat)).
   Definition sym_run (q : oquirks) (fs0 : fsys) (h : list op) : list (out tok) :=
-    snd (run tok sym_pf sym_blocks (sym_rep 1) (sym_rep 2) (fun p => nat_mem p hard) (fun p => nat_mem p ign) (tbl_in_dir dirs) q (init, fs0) h).
+    snd (run tok sym_pf sym_blocks (sym_rep 1) (sym_rep 2) (fun p => nat_mem p hard) (tbl_ignored ign) ip (tbl_in_dir dirs) q (mk_init ip fs0, fs0) h).
   Fixpoint sym_fresh_run (q : oquirks) (fs : fsys) (h : list op) : list (out tok) :=
     match h with
     | [] => []
-    | o :: r => fresh tok sym_pf sym_blocks (sym_rep 1) (sym_rep 2) (fun p => nat_mem p hard) (fun p => nat_mem p ign) (tbl_in_dir dirs) q fs o
+    | o :: r => fresh tok sym_pf sym_blocks (sym_rep 1) (sym_rep 2) (fun p => nat_mem p hard) (tbl_ignored ign) ip (tbl_in_dir dirs) q fs o
                 :: sym_fresh_run q (fs_step fs o) r
     end.
   Definition enc_outs (l : list (out tok)) : list (list nat) := flat_map (fun o => flat_map enc_tok (out_all o)) l.
@@ -91,7 +97,7 @@ Fixpoint rep_lookup (tbl : list (list nat * list N)) (key : list nat) : list N :
 Definition same (a b : list N) : bool := ms_eqb N.eqb a b.
 
 Section Tab.
-  Variables (hard ign : list nat) (dirs : list (nat * list nat)).
+  Variables (hard : list nat) (ign : list (nat * list nat)) (ip : path) (dirs : list (nat * list nat)).
   Variable pf_tbl : list (nat * option nat * list N).
   Variable rep_tbl : list (list nat * list N).
 
@@ -100,11 +106,11 @@ Section Tab.
   Definition t_blocks (rows aux : list fv) : list N :=
     if is_suffix aux rows then rep_lookup rep_tbl (0 :: List.length aux :: flat_fv rows) else [sentinel].
   Definition t_run (q : oquirks) (fs0 : fsys) (h : list op) : list (list N) :=
-    map out_all (snd (run N t_pf t_blocks (t_rep 1) (t_rep 2) (fun p => nat_mem p hard) (fun p => nat_mem p ign) (tbl_in_dir dirs) q (init, fs0) h)).
+    map out_all (snd (run N t_pf t_blocks (t_rep 1) (t_rep 2) (fun p => nat_mem p hard) (tbl_ignored ign) ip (tbl_in_dir dirs) q (mk_init ip fs0, fs0) h)).
   Fixpoint t_fresh_run (q : oquirks) (fs : fsys) (h : list op) : list (list N) :=
     match h with
     | [] => []
-    | o :: r => out_all (fresh N t_pf t_blocks (t_rep 1) (t_rep 2) (fun p => nat_mem p hard) (fun p => nat_mem p ign) (tbl_in_dir dirs) q fs o)
+    | o :: r => out_all (fresh N t_pf t_blocks (t_rep 1) (t_rep 2) (fun p => nat_mem p hard) (tbl_ignored ign) ip (tbl_in_dir dirs) q fs o)
                 :: t_fresh_run q (fs_step fs o) r
     end.
 
@@ -127,7 +133,7 @@ End Tab.
 
 (* ---------- C10: one command-line invocation against the library API on the same targets ---------- *)
 Section Tab10.
-  Variables (hard ign : list nat) (dirs : list (nat * list nat)).
+  Variables (hard : list nat) (ign : list (nat * list nat)) (ip : path) (dirs : list (nat * list nat)).
   Variable pf_tbl : list (nat * option nat * list N).
   Variable rep_tbl : list (list nat * list N).
   Variable rule_ids : list string.            (* distinct rule ids of the case *)
@@ -152,10 +158,10 @@ Section Tab10.
 
   Definition m_cli (q : oquirks) (fs : fsys) (files : list path) (ds : list (nat * list path)) : list N :=
     flat_map out_all (cli_run N (pf_lookup pf_tbl) (t_blocks rep_tbl) (t_rep rep_tbl 1) (t_rep rep_tbl 2)
-                        (fun p => nat_mem p hard) (fun p => nat_mem p ign) (tbl_in_dir dirs) q fs files ds).
+                        (fun p => nat_mem p hard) (tbl_ignored ign) ip (tbl_in_dir dirs) q fs files ds).
   Definition m_api (q : oquirks) (fs : fsys) (t : target) : list N :=
     out_all (api_run N (pf_lookup pf_tbl) (t_blocks rep_tbl) (t_rep rep_tbl 1) (t_rep rep_tbl 2)
-               (fun p => nat_mem p hard) (fun p => nat_mem p ign) (tbl_in_dir dirs) q fs t).
+               (fun p => nat_mem p hard) (tbl_ignored ign) ip (tbl_in_dir dirs) q fs t).
   Definition targets (files : list path) (ds : list (nat * list path)) : list target :=
     map TFile files ++ map (fun d => TDir (fst d) (snd d)) ds.
 
@@ -184,11 +190,11 @@ Section Tab10.
 End Tab10.
 
 Section Sym10.
-  Variables (hard ign : list nat) (dirs : list (nat * list nat)).
+  Variables (hard : list nat) (ign : list (nat * list nat)) (ip : path) (dirs : list (nat * list nat)).
   Definition sym_cli (q : oquirks) (fs : fsys) (files : list path) (ds : list (nat * list path)) : list (out tok) :=
-    cli_run tok sym_pf sym_blocks (sym_rep 1) (sym_rep 2) (fun p => nat_mem p hard) (fun p => nat_mem p ign) (tbl_in_dir dirs) q fs files ds.
+    cli_run tok sym_pf sym_blocks (sym_rep 1) (sym_rep 2) (fun p => nat_mem p hard) (tbl_ignored ign) ip (tbl_in_dir dirs) q fs files ds.
   Definition sym_api (q : oquirks) (fs : fsys) (t : target) : out tok :=
-    api_run tok sym_pf sym_blocks (sym_rep 1) (sym_rep 2) (fun p => nat_mem p hard) (fun p => nat_mem p ign) (tbl_in_dir dirs) q fs t.
+    api_run tok sym_pf sym_blocks (sym_rep 1) (sym_rep 2) (fun p => nat_mem p hard) (tbl_ignored ign) ip (tbl_in_dir dirs) q fs t.
   Definition queries10 (q : oquirks) (fs : fsys) (files : list path) (ds : list (nat * list path)) : list (list nat) :=
     flat_map (fun c => enc_outs (sym_cli c fs files ds)
                        ++ enc_outs (map (sym_api c fs) (map TFile files ++ map (fun d => TDir (fst d) (snd d)) ds)))
